@@ -1,7 +1,8 @@
 CONSTANTS
   Pairs = {"qq", "ql", "qcase", "qqq"}
-  Flushes = {"setadd", "reinit", "time", "none"}
-  Ttls = {5, 60}
+  Flushes = {"setadd", "reinit", "time", "timemid", "none"}
+  Ttls = {2, 5, 60}
+  Ttls2 = {2, 5, 60}
 INIT GInit
 NEXT GNext
 INVARIANT Emit
